@@ -37,10 +37,12 @@ structure InvF (st : THF) : Prop where
     st.loaded = true ∧ (st.failed = false → st.out = st.hist0 ++ st.front)
   wake : st.cpc = .waiting → st.ev = false → st.lpc ≠ .finished
   started : st.lpc = .notStarted → st.cpc = .idle
-  noCalled : st.lpc ≠ .called
+  called : st.lpc = .called → st.hoist = true
+  cfg : st.hoist = false ∨ st.eager = false
 
-theorem invF_init (old pre : List Text) : InvF (THF.init old pre) := by
-  constructor <;> simp [THF.init, THF.view, THF.active]
+theorem invF_init (old pre : List Text) (eager hoist : Bool := false)
+    (hcfg : hoist = false ∨ eager = false := by decide) : InvF (THF.init old pre eager hoist) := by
+  constructor <;> simp [THF.init, THF.view, THF.active, hcfg]
 
 set_option hygiene false in
 macro "unpack" h:ident : tactic => `(tactic| (
@@ -60,7 +62,8 @@ macro "unpack" h:ident : tactic => `(tactic| (
     have h13 := ($h).ywake
     have h14 := ($h).hist
     have h15 := ($h).frontOk
-    have h16 := ($h).noCalled))
+    have h16 := ($h).called
+    have h17 := ($h).cfg))
 
 theorem invF_cwait (st : THF) (h : InvF st) : InvF (stepF st .cwait) := by
   simp only [stepF]
@@ -94,7 +97,7 @@ theorem invF_ldone (st : THF) (h : InvF st) : InvF (stepF st .ldone) := by
     constructor <;> simp_all [THF.view, THF.active, THF.shift]
   · exact h
 
-theorem invF_lreset (st : THF) (h : InvF st) : InvF (stepF st .lreset) := by
+theorem invF_lcall (st : THF) (h : InvF st) : InvF (stepF st .lcall) := by
   simp only [stepF]
   split
   · rename_i hl
@@ -102,7 +105,7 @@ theorem invF_lreset (st : THF) (h : InvF st) : InvF (stepF st .lreset) := by
     constructor <;> simp_all [THF.view, THF.active, THF.shift]
   · exact h
 
-theorem invF_lfail (st : THF) (h : InvF st) : InvF (stepF st .lfail) := by
+theorem invF_lreset (st : THF) (h : InvF st) : InvF (stepF st .lreset) := by
   simp only [stepF]
   split
   · rename_i hl
@@ -111,8 +114,29 @@ theorem invF_lfail (st : THF) (h : InvF st) : InvF (stepF st .lfail) := by
   · split
     · rename_i hl
       unpack h
+      have hho := h16 hl
+      have hea : st.eager = false := by
+        rcases h17 with h17 | h17
+        · simp [hho] at h17
+        · exact h17
       constructor <;> simp_all [THF.view, THF.active, THF.shift]
     · exact h
+
+theorem invF_lfail (st : THF) (h : InvF st) : InvF (stepF st .lfail) := by
+  simp only [stepF]
+  split
+  · rename_i hl
+    unpack h
+    cases hh : st.hoist <;> (constructor <;> simp_all [THF.view, THF.active, THF.shift])
+  · split
+    · rename_i hl
+      unpack h
+      constructor <;> simp_all [THF.view, THF.active, THF.shift]
+    · split
+      · rename_i hl
+        unpack h
+        constructor <;> simp_all [THF.view, THF.active, THF.shift]
+      · exact h
 
 theorem invF_ccancel (st : THF) (h : InvF st) : InvF (stepF st .ccancel) := by
   simp only [stepF]
@@ -216,7 +240,8 @@ theorem invF_cread (st : THF) (h : InvF st) : InvF (stepF st .cread) := by
     · intro hn
       have := h.started hn
       simp [hl] at this
-    · exact h.noCalled
+    · exact h.called
+    · exact h.cfg
   · exact h
 
 theorem invF_cyield (st : THF) (h : InvF st) : InvF (stepF st .cyield) := by
@@ -261,7 +286,8 @@ theorem invF_cyield (st : THF) (h : InvF st) : InvF (stepF st .cyield) := by
     · intro hn
       have := h.started hn
       simp [hl] at this
-    · exact h.noCalled
+    · exact h.called
+    · exact h.cfg
   · exact h
 
 theorem invF_step (st : THF) (h : InvF st) (a : StepF) : InvF (stepF st a) := by
@@ -271,6 +297,7 @@ theorem invF_step (st : THF) (h : InvF st) (a : StepF) : InvF (stepF st a) := by
   | cread => exact invF_cread st h
   | cyield => exact invF_cyield st h
   | ccancel => exact invF_ccancel st h
+  | lcall => exact invF_lcall st h
   | lreset => exact invF_lreset st h
   | lappend => exact invF_lappend st h
   | lnotify => exact invF_lnotify st h
@@ -287,14 +314,14 @@ theorem invF_run (st : THF) (h : InvF st) (sched : List StepF) : InvF (runF st s
     exact ih (stepF st a) (invF_step st h a)
 
 def isLoadStepF : StepF → Prop
-  | .cwait | .cread | .cyield | .lreset | .lappend | .lnotify | .ldone | .lfinal => True
+  | .cwait | .cread | .cyield | .lcall | .lreset | .lappend | .lnotify | .ldone | .lfinal => True
   | _ => False
 
 def lrankF (st : THF) : Nat :=
   match st.lpc with
   | .notStarted => 0
-  | .started => 2 * st.storage.length + 4
-  | .called => 2 * st.storage.length + 3
+  | .started => 2 * max st.storage.length st.remaining.length + 4
+  | .called => 2 * max st.storage.length st.remaining.length + 3
   | .iter => 2 * st.remaining.length + 2
   | .notify => 2 * st.remaining.length + 3
   | .notifyFinal => 1
@@ -338,14 +365,27 @@ theorem budgetF_decreases (st : THF) (a : StepF) (ha : isLoadStepF a) (hne : ste
       simp only [h, if_true]
       cases hld : st.sawDone <;> cases hev : st.ev <;> simp [budgetF, lrankF, crankF, h, hev]
     · exact absurd rfl hne
+  | lcall =>
+    simp only [stepF] at hne ⊢
+    split at hne
+    · rename_i h
+      simp only [h, and_self, if_true]
+      simp only [budgetF, lrankF, crankF, h.2]
+      cases st.eager <;> simp <;> omega
+    · exact absurd rfl hne
   | lreset =>
     simp only [stepF] at hne ⊢
     split at hne
     · rename_i h
-      simp only [h, if_true]
-      simp only [budgetF, lrankF, crankF, h, List.length_reverse]
+      simp only [h, and_self, if_true]
+      simp only [budgetF, lrankF, crankF, h.1, List.length_reverse]
       omega
-    · exact absurd rfl hne
+    · split at hne
+      · rename_i h0 h
+        simp only [h, if_true]
+        simp only [budgetF, lrankF, crankF, h]
+        cases st.eager <;> simp <;> omega
+      · exact absurd rfl hne
   | lappend =>
     simp only [stepF] at hne ⊢
     split at hne
@@ -415,11 +455,11 @@ theorem no_deadlockF (st : THF) (h : InvF st) (hc : st.active) :
       cases hl : st.lpc with
       | notStarted => exact absurd hl hns
       | finished => exact absurd hl hnf
-      | started => exact ⟨.lreset, trivial, lpc_ne _ (by simp [stepF, hl])⟩
-      | called =>
-        -- unreachable, but not excluded by the invariant: nothing to prove about it is needed,
-        -- the consumer itself cannot move; use the invariant-free fact that `.called` never occurs
-        exact absurd hl (h.noCalled)
+      | started =>
+        cases hh : st.hoist with
+        | false => exact ⟨.lreset, trivial, lpc_ne _ (by simp [stepF, hl, hh])⟩
+        | true => exact ⟨.lcall, trivial, lpc_ne _ (by simp [stepF, hl, hh])⟩
+      | called => exact ⟨.lreset, trivial, lpc_ne _ (by simp [stepF, hl])⟩
       | notify => exact ⟨.lnotify, trivial, lpc_ne _ (by simp [stepF, hl])⟩
       | notifyFinal => exact ⟨.lfinal, trivial, lpc_ne _ (by simp [stepF, hl])⟩
       | iter =>
